@@ -449,6 +449,8 @@ def mon_c07(ex, info, col):
     p = ex.project
     m = ex.m
     absn = set(ex.opts.get("absence") or ())
+    if ex.opts.get("post_remove"):
+        absn = set()  # the absence steps were deleted from the result afterwards
     n = len(p.cost_list)
     col.checks["c07.project-vs-org"] += 1
     if list(p.cost_list) != list(p.organization.cost_list):
@@ -555,6 +557,7 @@ def mon_c10(ex, info, col):
         working, sa = phs["allocated"]
         # whether step t is a project-wide absence step is decided by the list given to simulate(), not by the library's flag
         col.checks["c10.step-kind"] += 1
+        working = ex.lib_working.get(t, working)  # here the library's own flag is the thing under test
         if (t in absn) != (working is False):
             out.append(V("C10", "C10:project-absence-step-treated-as-working-step" if t in absn else "C10:working-step-treated-as-project-absence-step", ex,
                          {"t": t, "absence_list": list(ex.opts.get("absence") or ()), "library_working_flag": working}))
